@@ -80,8 +80,12 @@ func carryShapeOK(m *model.Model, call *ssa.Call) string {
 				continue
 			}
 			bo, ok := ifi.Cond.(*ssa.BinOp)
-			if !ok || (bo.Op != token.NEQ && bo.Op != token.GTR) {
+			if !ok || (bo.Op != token.NEQ && bo.Op != token.GTR && bo.Op != token.EQL) {
 				continue
+			}
+			borrowed := 0 // the edge on which the first subtraction borrowed
+			if bo.Op == token.EQL {
+				borrowed = 1
 			}
 			first, ok := stripConv(bo.X).(*ssa.Call)
 			if !ok || first.Call.StaticCallee() != cal || len(first.Call.Args) != 3 {
@@ -90,7 +94,7 @@ func carryShapeOK(m *model.Model, call *ssa.Call) string {
 			if z, ok := model.ConstInt(bo.Y); !ok || z != 0 {
 				continue
 			}
-			if !m.EdgeDominates(gb, 0, call.Block()) {
+			if !m.EdgeDominates(gb, borrowed, call.Block()) {
 				continue
 			}
 			eq := func(a, b ssa.Value) bool { return stripConv(a) == stripConv(b) || sameSliceExpr(a, b) }
@@ -519,7 +523,7 @@ func isNonElementwise(m *model.Model, fn *ssa.Function) bool {
 	if fn.Signature.Recv() != nil || len(fn.Blocks) == 0 || !m.InDecimalPkg(fn) || inKernelLayer(m, fn) || carryKernels[fn.Name()] {
 		return false
 	}
-	if len(fn.Params) < 3 || !m.IsWordSlice(fn.Params[0].Type()) {
+	if len(fn.Params) < 2 || !m.IsWordSlice(fn.Params[0].Type()) {
 		return false
 	}
 	// (z, x, y dec) or (z, x dec) with further operands: products and squares; helpers with an
@@ -1293,6 +1297,17 @@ func runMustFlow(m *model.Model, s *ob.Set) {
 						lenMant = true
 					} else if lf, ok := m.LoadOfDecField(a); ok && lf.Field == m.F.Mant {
 						lenZ = true
+					} else {
+						// the slice that was stored into z.mant, kept in a local
+						for _, b2 := range fn.Blocks {
+							for _, in2 := range b2.Instrs {
+								if st, ok := in2.(*ssa.Store); ok {
+									if fa, ok := m.DecField(st.Addr); ok && fa.Field == m.F.Mant && stripConvAny(st.Val) == stripConvAny(a) {
+										lenZ = true
+									}
+								}
+							}
+						}
 					}
 				}
 				if in, ok := v.(ssa.Instruction); ok {
